@@ -38,6 +38,8 @@ type scheduler struct {
 	abort    interface{} // pending abort raised in a non-main goroutine
 	preempt  bool        // background goroutines eligible at Yield
 	switches int
+	g2budget int         // remaining pre-emptions at synchronisation points (vrt.G2)
+	g2points int64       // synchronisation points passed while the budget was > 0
 }
 
 func newScheduler(i *interpreter) *scheduler {
@@ -214,6 +216,69 @@ func (s *scheduler) yield() {
 	}
 	next := s.pick(c, "yield")
 	s.switchTo(next)
+}
+
+// syncPoint is an involuntary scheduling point (G2): the current harness
+// goroutine is about to perform a synchronisation operation of the code under
+// analysis (mutex acquisition, atomic operation, sync.Map / sync.Once
+// operation). While the pre-emption budget lasts, whether another harness
+// goroutine runs first is a solver-enumerated choice like at a Yield.
+func (s *scheduler) syncPoint() {
+	if s.g2budget <= 0 || s.current.background {
+		return
+	}
+	s.g2points++
+	c := s.candidates(true)
+	if len(c) < 2 {
+		return
+	}
+	next := s.pick(c, "g2")
+	if next != s.current {
+		s.g2budget--
+		s.switchTo(next)
+	}
+}
+
+// isSyncOp reports whether a call to fn from the code under analysis is a G2
+// scheduling point. tools/instrument (native replay) uses the same rule.
+func isSyncOp(fn *ssa.Function) bool {
+	if fn == nil || fn.Pkg == nil && fn.Signature.Recv() == nil {
+		return false
+	}
+	var pkg string
+	if fn.Pkg != nil {
+		pkg = fn.Pkg.Pkg.Path()
+	} else if o := fn.Object(); o != nil && o.Pkg() != nil {
+		pkg = o.Pkg().Path()
+	}
+	switch pkg {
+	case "sync/atomic":
+		return true
+	case "sync":
+		recv := fn.Signature.Recv()
+		if recv == nil {
+			return false
+		}
+		t := recv.Type()
+		if p, ok := t.(*types.Pointer); ok {
+			t = p.Elem()
+		}
+		n, ok := t.(*types.Named)
+		if !ok {
+			return false
+		}
+		switch n.Obj().Name() {
+		case "Mutex":
+			return fn.Name() == "Lock"
+		case "RWMutex":
+			return fn.Name() == "Lock" || fn.Name() == "RLock"
+		case "Map":
+			return true
+		case "Once":
+			return fn.Name() == "Do"
+		}
+	}
+	return false
 }
 
 // park blocks the current goroutine until ready() holds.
